@@ -19,8 +19,11 @@ import ast
 import os
 
 MODULES = ['suit', 'pair', 'vul', 'player', 'bid', 'card', 'contract', 'score', 'bidding_phase', 'playing_phase', 'hands',
-           'data_handler/abstract_classes', 'data_handler/pbn_handler/writer', 'data_handler/json_handler/writer',
-           'data_handler/json_handler/parser']
+           'data_handler/abstract_classes', 'data_handler/pbn_handler/__init__', 'data_handler/pbn_handler/writer', 'data_handler/json_handler/writer',
+           'data_handler/json_handler/parser', 'network_bridge/bidding_system', 'network_bridge/server']
+
+# modules of which only the listed methods are translated (the rest of the module is threads, sockets and queues)
+SELECT = {'network_bridge/server': {'Server': ['hand_to_str']}}
 
 # a file object, as far as the JSON writer / parser use one: `write` appends a chunk, `json.load` reads the chunks joined
 PRELUDE = '''
@@ -30,6 +33,15 @@ class _File:
 
     def write(self, s):
         self.buf.append(s)
+
+
+# a `datetime.date`, as far as the PBN writer uses one: `strftime('%Y.%m.%d')` gives the text it was made from
+class _Date:
+    def __init__(self, text):
+        self.text = text
+
+    def strftime(self, fmt):
+        return self.text
 '''
 
 # functions the theorems are about: (class or '', name)
@@ -60,6 +72,9 @@ REQUIRED = [
     ('JsonLogWriter', 'write'), ('JsonBoardSettingWriter', 'write'),
     ('', 'hands_parser'), ('', 'convert_board_setting'), ('', 'convert_board_log'),
     ('JsonParser', 'parse_board_settings'), ('JsonParser', 'parse_board_logs'),
+    ('PbnWriter', 'write_line'), ('PbnWriter', 'write_header'), ('PbnWriter', 'write_tag_pair'),
+    ('PbnWriter', 'write_board_result'), ('PbnWriter', 'create_contents_sequence'),
+    ('Server', 'hand_to_str'), ('WeakBid', 'bid'), ('AlwaysPass', 'bid'),
 ]
 
 K = {'value': 1, 'name': 2, '__str__': 3, '__int__': 4, '__lt__': 5, '__le__': 6, '__gt__': 7, '__ge__': 8,
@@ -113,7 +128,15 @@ class Translator:
     def collect(self):
         for m in ['_prelude'] + MODULES:
             tree = ast.parse(self.source(m))
+            sel = SELECT.get(m)
             for node in tree.body:
+                if sel is not None:
+                    # only the listed methods of the listed classes; nothing else of this module
+                    if isinstance(node, ast.ClassDef) and node.name in sel:
+                        node.body = [st for st in node.body if isinstance(st, ast.FunctionDef) and st.name in sel[node.name]]
+                        node.bases = []
+                        self.collect_class(node, m)
+                    continue
                 if isinstance(node, ast.ClassDef):
                     self.collect_class(node, m)
                 elif isinstance(node, ast.FunctionDef):
@@ -561,6 +584,8 @@ class Translator:
             if f.attr == 'join' and isinstance(f.value, ast.Constant) and isinstance(f.value.value, str) \
                     and len(node.args) == 1 and not node.keywords:
                 return f'(.builtin .join [{self.expr(f.value)}, {self.expr(node.args[0])}])'
+            if f.attr == 'isupper' and not node.args and not node.keywords:
+                return f'(.builtin .isupper [{self.expr(f.value)}])'
             if f.attr == 'items' and not node.args and not node.keywords \
                     and not any('items' in ci.methods for ci in self.classes.values()):
                 return f'(.builtin .items [{self.expr(f.value)}])'
@@ -837,12 +862,22 @@ class Translator:
               ('Auction', ['bidding_phase'], 2000),
               ('Play', ['playing_phase'], 3000),
               ('Hands', ['hands'], 4000),
-              ('Json', ['_prelude', 'data_handler/abstract_classes', 'data_handler/pbn_handler/writer',
-                        'data_handler/json_handler/writer', 'data_handler/json_handler/parser'], 5000)]
+              ('Json', ['_prelude', 'data_handler/abstract_classes', 'data_handler/pbn_handler/__init__',
+                        'data_handler/pbn_handler/writer',
+                        'data_handler/json_handler/writer', 'data_handler/json_handler/parser'], 5000),
+              ('Net', ['network_bridge/bidding_system', 'network_bridge/server'], 6000)]
 
     def names_of(self, module):
         names = set()
         tree = ast.parse(self.source(module))
+        sel = SELECT.get(module)
+        if sel is not None:
+            keep = []
+            for node in tree.body:
+                if isinstance(node, ast.ClassDef) and node.name in sel:
+                    names.add(node.name)
+                    keep += [st for st in node.body if isinstance(st, ast.FunctionDef) and st.name in sel[node.name]]
+            tree = ast.Module(body=keep, type_ignores=[])
         for n in ast.walk(tree):
             if isinstance(n, ast.Name):
                 names.add(n.id)
@@ -882,6 +917,8 @@ class Translator:
         translated = set()
         func_module = {}
         for m in MODULES:
+            if m in SELECT:
+                continue
             tree = ast.parse(self.source(m))
             for node in tree.body:
                 if isinstance(node, ast.FunctionDef):
@@ -999,7 +1036,8 @@ open Bridge.Py
 '''
 
 
-FILES = ['PyCoreBase.lean', 'PyCoreAuction.lean', 'PyCorePlay.lean', 'PyCoreHands.lean', 'PyCoreJson.lean', 'PyCore.lean']
+FILES = ['PyCoreBase.lean', 'PyCoreAuction.lean', 'PyCorePlay.lean', 'PyCoreHands.lean', 'PyCoreJson.lean', 'PyCoreNet.lean',
+         'PyCore.lean']
 
 
 def generate(repo):
